@@ -215,6 +215,7 @@ static KV genCase()
     const int tot = s.nr_exp + s.div; // finest has about 2^tot + 1 radial nodes
     if (s.max_levels > 0 && tot - (s.max_levels - 1) > 5)
         s.max_levels = tot - 4;
+    s.via_cli = rint(0, 1);
     s.put(c);
     return c;
 }
